@@ -19,7 +19,9 @@ TWO_IMAGES_TAG = "supercell-two-images-one-group"
 ATOLS = [0.05, 0.05, 0.05, 0.05, 0.001, 0.01, 0.2]
 RULE = ("base structures as in C02 (validated planted copies, per-atom perturbation <= atol/16; atol/40 for the hint runs); "
         "atol drawn from {0.001, 0.01, 0.05, 0.2} per base structure; "
-        "relations: plain call (return_positions_and_quats=False); shift by a random vector (|components| <= 2 cell lengths) + fractional wrap; random atom permutation (a freshly built object, and the SAME Atoms object permuted in place between two searches); "
+        "cells incl. 1, 2, 3 negative diagonal entries (alone or mixed with off-diagonal entries; every kind in a dedicated "
+        "stream with the three half turns); relations: the whole crystal (cell + atoms) turned rigidly (half turns about the "
+        "axes, quarter turns, arbitrary rational rotations); plain call (return_positions_and_quats=False); shift by a random vector (|components| <= 2 cell lengths) + fractional wrap; random atom permutation (a freshly built object, and the SAME Atoms object permuted in place between two searches); "
         "pattern moved by a random rational rotation + translation; ALL hint triples (each entry None or an index) of the "
         "patterns with <= 4 atoms whose given axis points are distinct and whose given orientation point is >= 0.3 A off "
         "the (resolved) axis; 3 other RNG seeds; replication <= 2x1x1 (quick) / <= 2x2x2 (thorough) when every cell width exceeds 2*(diameter+2*atol) (below that two images of one atom can both fit and the relation is mathematically false). Thorough also: "
@@ -68,6 +70,12 @@ def t_pattern(base, quat, t):
     R = np.array([[float(x) for x in row] for row in fl.rotmat(quat)])
     P = np.array(base["pattern"]["pos"]).dot(R.T) + np.array(t)
     return dict(base, pattern={"elems": base["pattern"]["elems"], "pos": P.tolist()})
+
+
+def t_rotate(base, quat):
+    """the WHOLE crystal (cell vectors and atoms) turned rigidly: another Cartesian representation of the same crystal"""
+    R = np.array([[float(x) for x in row] for row in fl.rotmat(quat)])
+    return dict(base, pos=np.array(base["pos"]).dot(R.T).tolist(), cell=np.array(base["cell"]).dot(R.T).tolist())
 
 
 def t_replicate(base, dims):
@@ -141,6 +149,8 @@ def relation(base, rel, param, base_keys=None):
         if got != want:
             return "key set after permuting the SAME Atoms object in place: %s  vs  %s" % (got[:4], want[:4]), tb, res
         return None, tb, res
+    elif rel == "rotate-crystal":
+        tb = t_rotate(base, param)
     elif rel == "pattern":
         tb = t_pattern(base, param[0], param[1])
     elif rel == "hints":
@@ -240,6 +250,12 @@ def gen_base(rng, pname=None, perturb_div=16.0, tight=None, boundary=None, atol=
     return None
 
 
+def crystal_turn(rng):
+    """a rational quaternion for turning the whole crystal: half turns about a coordinate axis (an orthorhombic cell
+    then has two negative diagonal entries), quarter turns, arbitrary rotations"""
+    return fl.rat_quat(rng, rng.choice(["axis180", "axis180", "axis90", "random"]))
+
+
 def rand_params(rng, base):
     cf = np.array(base["cell"])
     n = len(base["elems"])
@@ -257,7 +273,7 @@ def run(ctx, oracle_only=False, scale=1):
     pairs, resolve_items = [], []
     n_tie = 0 if oracle_only else ctx.n(160, 500)
     # ---- (a) (b) (c) (e) (f) on random validated structures
-    for _ in range(ctx.n(220, 1500) * scale):
+    for _ in range(ctx.n(180, 1500) * scale):
         atol = rng.choice(ATOLS)
         case = gen_base(rng, atol=atol)
         if case is None:
@@ -280,6 +296,7 @@ def run(ctx, oracle_only=False, scale=1):
         rng.shuffle(order2)
         check_rel(ctx, base, "perm-inplace", order2, bk, pairs, False)
         check_rel(ctx, base, "pattern", pm, bk, pairs, tieit())
+        check_rel(ctx, base, "rotate-crystal", list(crystal_turn(rng)), bk, pairs, tieit())
         for sd in rng.sample(range(3, 10 ** 6), ctx.n(2, 3)):
             check_rel(ctx, base, "seed", sd, bk, pairs, False)
         if rng.random() < 0.5:
@@ -288,6 +305,35 @@ def run(ctx, oracle_only=False, scale=1):
             dims = rng.choice([(2, 1, 1), (1, 2, 1), (1, 1, 2)] if ctx.tier == "quick" and scale == 1 else
                               [(2, 1, 1), (1, 2, 1), (1, 1, 2), (2, 2, 1), (1, 2, 2), (2, 1, 2), (2, 2, 2)])
             check_rel(ctx, base, "replicate", list(dims), bk, pairs, len(pairs) < n_tie and rng.random() < 0.15)
+    # ---- cells with 1, 2, 3 negative diagonal entries (also mixed with off-diagonal entries), every kind in turn: all
+    # relations, and in particular the same crystal turned by half turns (which flips the signs of two diagonal entries)
+    for i in range(ctx.n(8, 48) * scale):
+        kind = g.NEG_KINDS[i % len(g.NEG_KINDS)]
+        case = None
+        for _ in range(20):
+            case = g.negdiag_case(rng, atol=ATOL, kind=kind)
+            if case is not None and case["elems"]:
+                break
+        if case is None:
+            ctx.count("generator:rejected")
+            continue
+        base = base_of(case)
+        ctx.count("stream:negative-diagonal:" + kind)
+        bk = keys(real_search(base, seed=1))
+        if bk is None:
+            ctx.fail("the search raised", inp_of(base, "seed", 1), tags=["base"])
+            continue
+        v, order, pm = rand_params(rng, base)
+        check_rel(ctx, base, "shift", v, bk, pairs, len(pairs) < n_tie and rng.random() < 0.3)
+        check_rel(ctx, base, "perm", order, bk, pairs, False)
+        check_rel(ctx, base, "pattern", pm, bk, pairs, False)
+        for ax in range(3):                       # the three half turns about the coordinate axes
+            qq = [0, 0, 0, 0]
+            qq[ax] = 1
+            check_rel(ctx, base, "rotate-crystal", qq, bk, pairs, len(pairs) < n_tie and rng.random() < 0.2)
+        check_rel(ctx, base, "rotate-crystal", list(fl.rat_quat(rng, "random")), bk, pairs, False)
+        if widths_ok(base) and len(base["elems"]) <= 30:
+            check_rel(ctx, base, "replicate", list(rng.choice([(2, 1, 1), (1, 2, 1), (1, 1, 2)])), bk, pairs, False)
     # ---- known finding C03-supercell-two-images-one-group: narrow cells (D < width < 2 D along one cell vector) in
     # which two periodic images of one atom both complete the pattern with the same partner.  Only the COUNT mismatch
     # of the supercell along that vector, with the reported supercell groups being exactly the groups an independent
@@ -394,6 +440,7 @@ def mof_files(ctx, rng):
             check_rel(ctx, base, "perm", order, bk, tags=["mof"])
             check_rel(ctx, base, "perm-inplace", order, bk, tags=["mof"])
             check_rel(ctx, base, "pattern", pm, bk, tags=["mof"])
+            check_rel(ctx, base, "rotate-crystal", list(crystal_turn(rng)), bk, tags=["mof"])
             check_rel(ctx, base, "seed", rng.randrange(10 ** 6), bk, tags=["mof"])
         check_rel(ctx, base, "replicate", list(rng.choice([(2, 1, 1), (1, 2, 1), (1, 1, 2)])), bk, tags=["mof"])
 
